@@ -27,6 +27,13 @@ Theorem escape_safe : forall s c, In c (escape TEXT_CLASS s) -> in_ranges c TEXT
 Proof. exact escape_text_safe. Qed.
 Print Assumptions escape_safe.
 
+(* 1c'. the class extracted from the source covers what XML requires to be escaped in a double-quoted
+        attribute value and in character data, plus TAB/LF/CR (attribute value normalisation would
+        turn them into spaces): a finite check on the regenerated table *)
+Theorem text_class_covers_xml : forallb (fun c => in_ranges c TEXT_CLASS) [34; 38; 60; 9; 10; 13] = true.
+Proof. vm_compute. reflexivity. Qed.
+Print Assumptions text_class_covers_xml.
+
 (* 1d. comments: the pattern _serialize_comment uses is applied once and is then stable
        (byte-canonical); it is NOT tree-faithful, XML does not decode references in comments:
        [comment_gt_not_faithful] *)
